@@ -78,6 +78,7 @@ def frameChecks : List (String Ã— String Ã— String Ã— Bool Ã— Bool) :=
 def vmArrays : List (String Ã— String) := [("stack", "StackSize"), ("frames", "MaxFrames")]
 
 def lenChecks : List (String Ã— String Ã— String Ã— String Ã— String Ã— String Ã— String) := [
+  ("builtins.go", "builtinTypeName", "MaxStringLen", ">", "len", "ErrStringLimit", "return"),
   ("builtins.go", "builtinString", "MaxStringLen", ">", "len", "ErrStringLimit", "return"),
   ("builtins.go", "builtinBytes", "MaxBytesLen", ">", "n", "ErrBytesLimit", "return"),
   ("builtins.go", "builtinBytes", "MaxBytesLen", ">", "len", "ErrBytesLimit", "return"),
@@ -90,6 +91,7 @@ def lenChecks : List (String Ã— String Ã— String Ã— String Ã— String Ã— String Ã
   ("formatter.go", "fmtbuf.WriteSingleByte", "MaxStringLen", ">=", "len", "ErrStringLimit", "panic"),
   ("formatter.go", "fmtbuf.WriteRune", "MaxStringLen", ">", "len+call", "ErrStringLimit", "panic"),
   ("objects.go", "Bytes.BinaryOp", "MaxBytesLen", ">", "len+len", "ErrBytesLimit", "return"),
+  ("objects.go", "Map.IndexSet", "MaxStringLen", ">", "len", "ErrStringLimit", "return"),
   ("objects.go", "String.BinaryOp", "MaxStringLen", ">", "len+len", "ErrStringLimit", "return"),
   ("objects.go", "String.BinaryOp", "MaxStringLen", ">", "len+len", "ErrStringLimit", "return"),
   ("tengo.go", "FromInterface", "MaxStringLen", ">", "len", "ErrStringLimit", "return"),
@@ -293,10 +295,15 @@ def bufRun (maxStr : Nat) : Bytes â†’ List BufOp â†’ Except GuardErr Bytes
     | .ok buf' => bufRun maxStr buf' ops
     | .error e => .error e
 
-/-- The two unguarded producers of the unchanged tree (known findings O12, O13), modelled as they are:
-`Map.IndexSet` keys the map by `ToString(index)` and `type_name` returns the type name, unchecked. -/
-def mapKeyOfIndex (rendered : Bytes) : Bytes := rendered
-def typeNameResult (name : Bytes) : Bytes := name
+/-- `Map.IndexSet`: the key under which the value is stored. `rendered` is `ToString(index)`. A string
+index (`isStr`) is stored as it is: it is an existing string value, checked where it was made. A key made
+by converting any other index is a new string value and is compared with the maximum (repaired O12). -/
+def mapKeyOfIndex (maxStr : Nat) (isStr : Bool) (rendered : Bytes) : Except GuardErr Bytes :=
+  if !isStr && rendered.length > maxStr then .error .stringLimit else .ok rendered
+
+/-- `builtinTypeName`: `name` is `args[0].TypeName()` (repaired O13) -/
+def typeNameResult (maxStr : Nat) (name : Bytes) : Except GuardErr Bytes :=
+  if name.length > maxStr then .error .stringLimit else .ok name
 
 /-! ## (d) frames -/
 
